@@ -10,7 +10,10 @@ RULE = ("K, four streams observed at fdtdx.Material and the list builders of fdt
         "aset(<property>, value); (pred) tensors that are exactly isotropic / isotropic within 1e-10 and 1e-8 relative / diagonal / "
         "with a tiny or large off-diagonal entry / identity / zero, all predicates of Material incl. the is_all_* conjunctions; "
         "(mats) dicts of 1-5 materials drawn from a small value pool so that sort keys tie on 1-4 leading entries, three list "
-        "modes, all five list builders + compute_ordered_materials; (cplx) from_complex_permittivity with scalar / 3 / 9 / nested "
+        "modes, all five list builders + compute_ordered_materials; (disp) dicts of 2-5 materials with 1-3 dispersive ones (Lorentz / Drude "
+        "poles), distinct keys, written in shuffled (mostly non-canonical, often descending) insertion order: the rows of "
+        "compute_allowed_dispersive_coefficients (c1..c4, num_components 1 and 3) against the model's canonical order, each row "
+        "identified with the block computed for that material alone; (cplx) from_complex_permittivity with scalar / 3 / 9 / nested "
         "complex tensors, complex or default permeability, reference given as frequency / wavelength / WaveCharacter / none / two, "
         "singular real parts and wrong shapes. Model compared exactly (lists, flags, order) or to 1e-12 (floats). Independent "
         "oracle: equivalent input forms give identical Materials; predicates recomputed from the tensor; every list entry i "
@@ -258,6 +261,80 @@ def mats_property(desc, mode, shuffled_desc=None):
     return None
 
 
+# --------------------------------------------------------------------------------- dispersive coefficient tables
+DT_DISP = 1e-17
+
+
+def gen_disp_mats(rng):
+    """2-5 materials, at least one (usually two) dispersive, distinct sort keys, in SHUFFLED insertion order"""
+    n = rng.randint(2, 5)
+    eps = rng.shuffle([1.0, 1.5, 2.25, 4.0, 6.0, 9.0, 12.0])[:n]
+    names = rng.shuffle(["air", "glass", "lorentz", "metal", "zz", "A"])[:n]
+    ndisp = rng.randint(1, min(3, n))
+    desc = []
+    for i in range(n):
+        poles = []
+        if i < ndisp:
+            for _ in range(rng.randint(1, 3)):
+                if rng.chance(0.5):
+                    poles.append(["lorentz", rng.choice([1e15, 2e15, 3.3e15]), rng.choice([1e13, 3e13]), rng.choice([0.7, 2.0, 1.3])])
+                else:
+                    poles.append(["drude", rng.choice([2e15, 1e15]), rng.choice([1e14, 5e13])])
+        desc.append([names[i], {"eps": eps[i], "mu": rng.choice([1.0, 1.0, 1.5]), "sigma": rng.choice([0.0, 0.0, 3.0]),
+                                "sigma_m": rng.choice([0.0, 0.5]), "poles": poles}])
+    desc = rng.shuffle(desc)
+    if rng.chance(0.7):      # make sure the insertion order is not already the canonical one
+        desc = sorted(desc, key=lambda d: -d[1]["eps"]) if rng.chance(0.5) else desc
+    return desc
+
+
+def build_disp_mats(desc):
+    e = E()
+    from fdtdx.dispersion import DispersionModel, DrudePole, LorentzPole
+    out = {}
+    with warnings.catch_warnings():
+        warnings.simplefilter("ignore")
+        for name, m in desc:
+            poles = tuple(LorentzPole(resonance_frequency=p[1], damping=p[2], delta_epsilon=p[3]) if p[0] == "lorentz"
+                          else DrudePole(plasma_frequency=p[1], damping=p[2]) for p in m["poles"])
+            out[name] = e["M"](permittivity=m["eps"], permeability=m["mu"], electric_conductivity=m["sigma"],
+                               magnetic_conductivity=m["sigma_m"], dispersion=DispersionModel(poles=poles) if poles else None)
+    return out
+
+
+def disp_tables(mats, max_poles, ncomp):
+    """(c1..c4) of compute_allowed_dispersive_coefficients flattened per material row: list over materials of flat float lists"""
+    import numpy as np
+    mm = E()["mats"]
+    c = mm.compute_allowed_dispersive_coefficients(mats, dt=DT_DISP, max_num_poles=max_poles, num_components=ncomp)
+    n = len(mats)
+    return [[float(x) for k in range(4) for x in np.asarray(c[k][i]).ravel()] for i in range(n)]
+
+
+def disp_property(desc, ncomp, shuffled=None):
+    """row i of c1..c4 belongs to material names[i]; independent of insertion order (keys are distinct)"""
+    mm = E()["mats"]
+    mats = build_disp_mats(desc)
+    names = mm.compute_ordered_names(mats)
+    maxp = mm.compute_max_dispersive_poles(mats)
+    table = disp_tables(mats, maxp, ncomp)
+    if len(table) != len(names):
+        return f"dispersive coefficient arrays have {len(table)} rows for {len(names)} materials", None
+    blocks = {}
+    for nme in mats:        # the block of one material alone: no order involved
+        blocks[nme] = disp_tables({nme: mats[nme]}, maxp, ncomp)[0]
+    for i, nme in enumerate(names):
+        if table[i] != blocks[nme]:
+            owner = [k for k, b in blocks.items() if b == table[i]]
+            return (f"dispersive c1..c4 row {i} is not the coefficient block of material {nme!r} (ordered names {names}, dict order "
+                    f"{list(mats)}); it is the block of {owner}"), None
+    if shuffled is not None:
+        t2 = disp_tables(build_disp_mats(shuffled), maxp, ncomp)
+        if t2 != table:
+            return "dispersive coefficient arrays depend on the dict insertion order", None
+    return None, (names, table, blocks, maxp)
+
+
 # ---------------------------------------------------------------------------------------------------- complex
 def gen_cplx_value(rng, allow_bad=True):
     """returns (description, shape, rows, flat complex list or None when the shape is rejected before flattening)"""
@@ -434,6 +511,30 @@ def run(ctx):
         lines.append(f"mats {mode} {n} " + " ".join(f2h(x) for _, m in desc for p in m for x in p))
         post.append(("mats", case, (inames, ilists, [nm for nm, _ in desc])))
 
+    # ---- dispersive coefficient tables (every per-material table indexed by the material index)
+    for i in range(ctx.scale(60, 400)):
+        desc = gen_disp_mats(rng)
+        ncomp = rng.choice([1, 3])
+        case = {"stream": "disp", "materials": desc, "ncomp": ncomp, "shuffled": rng.shuffle(desc)}
+        ctx.impl_property_evals += 1
+        d, res = disp_property(desc, ncomp, case["shuffled"])
+        order_in = [nm for nm, _ in desc]
+        canonical = sorted(order_in, key=lambda nm: dict(desc)[nm]["eps"])
+        ctx.case(sample=case if i == 0 else None, nontrivial=("disp", i), stream="disp", n_materials=len(desc),
+                 n_dispersive=sum(1 for _, m in desc if m["poles"]), insertion_is_canonical=(order_in == canonical), ncomp=ncomp)
+        if d:
+            ctx.violation(case, d)
+            continue
+        names, table, blocks, maxp = res
+        mats = build_disp_mats(desc)
+        L = len(table[0])
+        flat = []
+        for nm in order_in:
+            m = mats[nm]
+            flat += [float(x) for p in PROPS for x in getattr(m, p)] + blocks[nm]
+        lines.append(f"matsd {len(desc)} {L} " + " ".join(f2h(x) for x in flat))
+        post.append(("disp", case, (names, table, order_in)))
+
     # ---- complex permittivity
     for i in range(ctx.scale(250, 1500)):
         eps, tag = gen_cplx_value(rng)
@@ -472,6 +573,11 @@ def run(ctx):
             for j in range(4):
                 flat = [float(x) for t in ilists[j] for x in t]
                 ctx.expect_equal("mats-" + PROPS[j], case, [f2h(x) for x in flat], parts[j + 1].split())
+        elif kind == "disp":
+            names, table, order_in = got
+            parts = rep.split(" | ")
+            ctx.expect_equal("disp-order", case, names, [order_in[int(t)] for t in parts[0].split()])
+            ctx.expect_equal("disp-rows", case, [f2h(x) for row in table for x in row], parts[1].split() if len(parts) > 1 else [])
         else:
             if got is None:
                 ctx.expect_equal("cplx", case, "error", rep)
@@ -516,6 +622,8 @@ def replay(ctx, inp):
         return impl_pred(inp)[1]
     if s == "mats":
         return mats_property(inp["materials"], inp["mode"], inp.get("shuffled"))
+    if s == "disp":
+        return disp_property(inp["materials"], inp["ncomp"], inp.get("shuffled"))[0]
     m, omega = impl_cplx(inp)
     if omega is None:
         return None if m is None else "from_complex_permittivity accepted zero or several reference specifications"
@@ -563,6 +671,14 @@ def search(ctx, hints):
                 ctx.violation(h, d)
                 return
     rng = ctx.rng.fork()
+    for i in range(200):
+        desc = gen_disp_mats(rng)
+        case = {"stream": "disp", "materials": desc, "ncomp": rng.choice([1, 3]), "shuffled": rng.shuffle(desc)}
+        ctx.impl_property_evals += 1
+        d = replay(ctx, case)
+        if d:
+            ctx.violation(case, d)
+            return
     for i in range(3000):
         k = i % 4
         if k == 0:
